@@ -74,6 +74,8 @@ type shim struct {
 	mu     sync.Mutex
 	faults []string // consumed one per request: none | before | after-req | reply-<k>
 	seen   int      // requests seen
+	isDown bool
+	addr   string
 }
 
 func newShim(addr, target string) (*shim, error) {
@@ -81,9 +83,39 @@ func newShim(addr, target string) (*shim, error) {
 	if err != nil {
 		return nil, err
 	}
-	s := &shim{ln: ln, target: target}
+	s := &shim{ln: ln, target: target, addr: addr}
 	go s.serve()
 	return s, nil
+}
+
+// down makes the application side unreachable: the listener is closed (dials are refused) and
+// established connections are cut at their next request; up re-opens it on the same address.
+func (s *shim) down() {
+	s.mu.Lock()
+	s.isDown = true
+	s.mu.Unlock()
+	s.ln.Close()
+}
+
+func (s *shim) up() error {
+	var ln stdnet.Listener
+	var err error
+	for i := 0; i < 200; i++ {
+		ln, err = stdnet.Listen("tcp", s.addr)
+		if err == nil {
+			break
+		}
+		time.Sleep(10 * time.Millisecond)
+	}
+	if err != nil {
+		return err
+	}
+	s.mu.Lock()
+	s.isDown = false
+	s.ln = ln
+	s.mu.Unlock()
+	go s.serve()
+	return nil
 }
 
 func (s *shim) set(f []string) {
@@ -106,8 +138,11 @@ func (s *shim) next() string {
 }
 
 func (s *shim) serve() {
+	s.mu.Lock()
+	ln := s.ln
+	s.mu.Unlock()
 	for {
-		c, err := s.ln.Accept()
+		c, err := ln.Accept()
 		if err != nil {
 			return
 		}
@@ -130,7 +165,10 @@ func (s *shim) handle(c stdnet.Conn) {
 			return
 		}
 		f := s.next()
-		if f == "before" {
+		s.mu.Lock()
+		dn := s.isDown
+		s.mu.Unlock()
+		if f == "before" || dn {
 			return
 		}
 		if _, err := up.Write(req); err != nil {
@@ -452,6 +490,41 @@ func init() {
 				}
 			}
 		}
+		// ---- the application side goes away (its address refuses connections), comes back later
+		for round := 0; round < 2; round++ {
+			warm1()
+			s1.down()
+			type callT struct {
+				name string
+				f    func() error
+			}
+			calls := []callT{
+				{"CommitBlock", func() error { _, err := babbleSide.CommitBlock(blocks[bnames[1]]); return err }},
+				{"GetSnapshot", func() error { _, err := babbleSide.GetSnapshot(1); return err }},
+				{"Restore", func() error { return babbleSide.Restore([]byte{1, 2}) }},
+				{"OnStateChanged", func() error { return babbleSide.OnStateChanged(state.Babbling) }},
+				{"CommitBlock", func() error { _, err := babbleSide.CommitBlock(blocks[bnames[2]]); return err }},
+			}
+			for k, cl := range calls {
+				evals++
+				classes[fmt.Sprintf("appdown|%d|%s", k, cl.name)] = true
+				h.reset()
+				if err := cl.f(); err == nil {
+					viol("empty-success-while-application-unreachable:"+cl.name, fmt.Sprintf("call #%d (%s) after the application side became unreachable (all dials refused) returned no error", k+1, cl.name), map[string]interface{}{"call": cl.name, "position": k + 1})
+				}
+			}
+			if err := s1.up(); err != nil {
+				ev.Fail("C20: cannot re-open the shim: %v", err)
+			}
+			evals++
+			h.reset()
+			h.resp = responses[rnames[2]]
+			if got, err := babbleSide.CommitBlock(blocks[bnames[1]]); err != nil {
+				viol("no-recovery-after-application-returns", fmt.Sprintf("after the application side came back a CommitBlock still fails: %v", err), nil)
+			} else if !bytes.Equal(got.StateHash, h.resp.StateHash) {
+				viol("commit-response-differs:after-recovery", "state hash differs after recovery", nil)
+			}
+		}
 		// an application-side error must come back as an error
 		h.reset()
 		warm1()
@@ -608,7 +681,7 @@ func init() {
 		cov["block_shapes"] = len(blocks)
 		cov["exhaustive"] = true
 		cov["samples"] = samples
-		cov["rule"] = "a real SocketAppProxy (Babble side) and SocketBabbleProxy (application side) over loopback TCP, and the InmemProxy, in front of the same recording handler; a TCP shim between them applies one fault action per request message. Enumerated: payload grammar (blocks with 0..3 transactions of shapes {empty, ASCII, binary with 0x00/0xff/quotes/newlines, invalid UTF-8, 64KB, 1MB}, nil vs empty slices, nil element, 0..2 internal transactions with receipts, 0..2 signatures) x commit responses {nil, empty, 32-byte, binary state hash; 0/2 receipts} x call {CommitBlock, GetSnapshot, Restore, OnStateChanged, SubmitTx sequences of 1..5 per connection} x fault vector over the three attempts in {none, cut before request, cut after request before reply, cut after k reply bytes}^3, prefix-closed (quick: full vectors for a quarter of the block/response pairs, single-fault vectors for the rest). Oracle: the application handler receives a block with the same body hash, signatures and transaction bytes as in-process; Babble receives exactly the returned state hash and receipts; acknowledged transactions arrive byte-identical and in order; nil error only together with the genuine reply, error iff all attempts failed. Faults are connection closes, never delays"
+		cov["rule"] = "a real SocketAppProxy (Babble side) and SocketBabbleProxy (application side) over loopback TCP, and the InmemProxy, in front of the same recording handler; a TCP shim between them applies one fault action per request message. Enumerated: payload grammar (blocks with 0..3 transactions of shapes {empty, ASCII, binary with 0x00/0xff/quotes/newlines, invalid UTF-8, 64KB, 1MB}, nil vs empty slices, nil element, 0..2 internal transactions with receipts, 0..2 signatures) x commit responses {nil, empty, 32-byte, binary state hash; 0/2 receipts} x call {CommitBlock, GetSnapshot, Restore, OnStateChanged, SubmitTx sequences of 1..5 per connection} x fault vector over the three attempts in {none, cut before request, cut after request before reply, cut after k reply bytes}^3, prefix-closed (quick: full vectors for a quarter of the block/response pairs, single-fault vectors for the rest). Oracle: the application handler receives a block with the same body hash, signatures and transaction bytes as in-process; Babble receives exactly the returned state hash and receipts; acknowledged transactions arrive byte-identical and in order; nil error only together with the genuine reply, error iff all attempts failed. Additionally the application side becomes unreachable (dials refused) for five consecutive calls, which must all fail, and comes back (the next call must succeed). Faults are connection closes / refusals, never delays"
 		rep.Assumptions = []string{"retries after a lost reply may deliver a block / transaction to the other side more than once; the property does not speak about that and it is not flagged"}
 		return rep.Finish()
 	}
